@@ -421,3 +421,49 @@ def check_timemode(cases):
                 bad.append(dict(cls="Average", mode="time", calls=c["calls"][:k + 1], delay_s=D, expected=float(ea), got=av.v.tolist()))
                 break
     return bad
+
+
+def check_shuntsw(data):
+    """ShuntAdjust + SwBlock stand-alone (two devices, levels 0..MaxSel of 0.25 pu each) on the call sequences enumerated from
+    ShuntSw.tla: level and time of the last switching of each device after every call."""
+    NumParam, Algeb, State = _mk()
+    from types import SimpleNamespace
+    from andes.core.service import SwBlock
+    from andes.core.discrete import ShuntAdjust
+    bad = []
+    maxsel, dt_ticks = int(data["MaxSel"]), int(data["Dt"])
+    n = 2
+    zv = {"low": 0.9, "in": 1.0, "high": 1.2}
+    for c in data["cases"]:
+        owner = SimpleNamespace(class_name="Probe", idx=SimpleNamespace(v=list(range(n))))
+
+        def par(vals, name):
+            p = NumParam()
+            p.v = np.array(vals, dtype=float)
+            p.name = name
+            p.owner = owner
+            return p
+        b0 = par([0.25 * s for s in c["init"]["sel"]], "b")
+        g0 = par([0.0] * n, "g")
+        ns = SimpleNamespace(v=[[maxsel]] * n, name="ns", owner=owner)
+        bs = SimpleNamespace(v=[[0.25]] * n, name="bs", owner=owner)
+        gs = SimpleNamespace(v=[[0.0]] * n, name="gs", owner=owner)
+        beff = SwBlock(init=b0, ns=ns, blocks=bs)
+        geff = SwBlock(init=g0, ns=ns, blocks=gs, ext_sel=beff)
+        _ = beff.v, geff.v
+        v = Algeb()
+        v.v = np.ones(n)
+        adj = ShuntAdjust(v=v, lower=par([0.95] * n, "lo"), upper=par([1.05] * n, "hi"), bsw=beff, gsw=geff, dt=par([0.5 * dt_ticks] * n, "dt"),
+                          u=par([1.0 if o else 0.0 for o in c["init"]["on"]], "u"), min_iter=2, err_tol=0.01)
+        adj.list2array(n)
+        for k, call in enumerate(c["calls"]):
+            v.v[:] = [zv[z] for z in call["zone"]]
+            kw = dict(niter=5, err=1e-9) if call["open"] else dict(niter=0, err=1.0)
+            adj.check_var(dae_t=0.5 * call["t"], **kw)
+            got = dict(sel=[int(s) for s in beff.sel], tLast=[int(round(float(x) / 0.5)) for x in adj.t_last])
+            beff_ok = all(abs(float(beff.v[d]) - 0.25 * got["sel"][d]) < 1e-12 for d in range(n))
+            if got != c["after"][k] or not beff_ok:
+                bad.append(dict(cls="ShuntAdjust", call=k, calls=c["calls"], init=c["init"], expected=c["after"][k], got=got,
+                                susceptance_follows_level=beff_ok))
+                break
+    return bad
